@@ -450,6 +450,12 @@ def test_selector_identifier_with_line_break():
     )
 
 
+def test_deeply_nested_condition_is_condition_error(sigma_simple_detections):
+    condition = "(" * 200 + "detection1" + ")" * 200
+    with pytest.raises(SigmaConditionError, match="nested too deeply"):
+        SigmaCondition(condition, sigma_simple_detections).parsed
+
+
 def test_selector_underscore_filter(sigma_underscore_detections):
     assert SigmaCondition("any of them", sigma_underscore_detections).parsed == ConditionOR(
         [
